@@ -64,6 +64,7 @@ fn main() {
     let argv: Vec<String> = std::env::args().collect();
     if argv.len() < 2 { eprintln!("usage: sfv_harness <component> --seed N --tier quick|thorough --out DIR [--replay FILE]"); std::process::exit(2); }
     let comp = argv[1].clone();
+    if comp == "c03-child" { std::panic::set_hook(Box::new(|_| {})); c03::child_main(); return; }
     if comp == "c05-child" { std::panic::set_hook(Box::new(|_| {})); c05::child_main(); return; }
     if comp == "reader-child" { std::panic::set_hook(Box::new(|_| {})); c01::child_main(); return; }
     let mut a = Args { seed: 1, tier: "quick".into(), out: ".".into(), replay: None, n: None, corpus: None };
